@@ -14,6 +14,10 @@ every check (clang JSON AST of AsyncLogging::threadFunc / append, AppendFile::ap
   FixedBuffer_append_copy_is_gt : bool   `if (avail() > len) memcpy` (strict) in FixedBuffer::append (LogStream.h)
   LogFile_default_flushInterval / LogFile_default_checkEveryN / AsyncLogging_default_flushInterval : Z
         default constructor arguments
+  Sinks_share_no_state          : bool   the classes AppendFile, LogFile, AsyncLogging, FixedBuffer have no static data member
+        (static const / constexpr constants excepted) and their member functions refer to no variable declared outside the
+        function other than members of *this (libc's stderr/stdout/errno excepted): two sinks share no state, a system
+        of N sinks is the product of N copies of the model
   AppendFile_append_loop_ok     : bool   AppendFile::append is the retry loop the model `af_loop` transcribes:
         `while (written != len)`, the only other exit is the break under a non-zero ferror() after a short
         write, `written += n` is the last statement of the body
@@ -195,6 +199,52 @@ def append_loop_fact():
     return ok, "while (%s) ... exits under %s; last statement %s" % (tc, ex, tl)
 
 
+SINK_CLASSES = [("muduo/base/FileUtil.cc", "AppendFile"), ("muduo/base/LogFile.cc", "LogFile"),
+                ("muduo/base/AsyncLogging.cc", "AsyncLogging"), ("muduo/base/LogStream.cc", "FixedBuffer")]
+LIBC_GLOBALS = {"stderr", "stdout", "errno"}
+
+
+def _is_const(v):
+    q = (v.get("type", {}) or {}).get("qualType", "")
+    return q.startswith("const ") or " const" in q.split("[")[0] or v.get("constexpr", False)
+
+
+def sinks_state_fact():
+    """The sink classes have no static data member (static const / constexpr constants excepted) and their member
+    functions reference no variable declared outside themselves other than members of *this (no namespace-scope
+    variable, no static local; libc's stderr/stdout/errno excepted).  Returns (ok, [what was found])."""
+    found = []
+    seen_any = False
+    for rel, cls in SINK_CLASSES:
+        for d in cxxast.dump(rel, cls):
+            # static data members
+            if d.get("kind") in ("CXXRecordDecl", "ClassTemplateDecl", "ClassTemplateSpecializationDecl"):
+                seen_any = True
+                for n in cxxast.walk(d):
+                    if n.get("kind") == "VarDecl" and n.get("storageClass") == "static" and not _is_const(n):
+                        found.append("static data member %s::%s : %s" % (cls, n.get("name"), n.get("type", {}).get("qualType")))
+            # member functions (in-class and out-of-line)
+            for fn in cxxast.walk(d):
+                if fn.get("kind") not in ("CXXMethodDecl", "CXXConstructorDecl", "CXXDestructorDecl", "FunctionDecl"):
+                    continue
+                if not any(isinstance(c, dict) and c.get("kind") == "CompoundStmt" for c in fn.get("inner", [])):
+                    continue
+                local = set()
+                for n in cxxast.walk(fn):
+                    if n.get("kind") in ("VarDecl", "ParmVarDecl"):
+                        local.add(n.get("id"))
+                        if n.get("kind") == "VarDecl" and n.get("storageClass") == "static" and not _is_const(n):
+                            found.append("static local %s in %s::%s" % (n.get("name"), cls, fn.get("name")))
+                for n in cxxast.walk(fn):
+                    if n.get("kind") == "DeclRefExpr":
+                        r = n.get("referencedDecl", {}) or {}
+                        if r.get("kind") == "VarDecl" and r.get("id") not in local and r.get("name") not in LIBC_GLOBALS and not _is_const(r):
+                            found.append("%s::%s refers to non-local variable %s : %s" % (cls, fn.get("name"), r.get("name"), r.get("type", {}).get("qualType")))
+    if not seen_any:
+        raise cxxast.Untranslatable("sink classes not found")
+    return (not found), sorted(set(found))
+
+
 def main():
     out = ["(* GENERATED by lib/gen_C16.py from %s -- do not edit *)" % cxxast.REPO,
            "From Coq Require Import ZArith Bool.", "Local Open Scope Z_scope.", ""]
@@ -254,6 +304,14 @@ def main():
         lp = False
         msgs.append("FALLBACK AppendFile_append_loop (%s)" % clean(str(e)))
     out.append("Definition AppendFile_append_loop_ok : bool := %s." % ("true" if lp else "false"))
+    try:
+        ok, what = sinks_state_fact()
+        out.append("(* AppendFile, LogFile, AsyncLogging, FixedBuffer: %s *)" % (clean("; ".join(what)) if what else
+                   "no static data member (static const constants excepted), no member function refers to a variable outside its object (stderr/stdout/errno excepted)"))
+    except Exception as e:  # noqa
+        ok = False
+        msgs.append("FALLBACK Sinks_share_no_state (%s)" % clean(str(e)))
+    out.append("Definition Sinks_share_no_state : bool := %s." % ("true" if ok else "false"))
     txt = "\n".join(out) + "\n"
     path = os.path.join(cxxast.ROOT, "coq/Gen_C16.v")
     old = open(path).read() if os.path.exists(path) else None
